@@ -53,6 +53,30 @@ func F1(api string, d int) (r Result) {
 		r.Err, Lines[0] = errors.Wrap(base, "Zq2x"), Here()
 	case "errors.WrapWithDepth":
 		r.Err, Lines[0] = errors.WrapWithDepth(d, base, "Zq2x"), Here()
+	case "errors.Wrap#empty":
+		r.Err, Lines[0] = errors.Wrap(base, ""), Here()
+	case "errors.WrapWithDepth#empty":
+		r.Err, Lines[0] = errors.WrapWithDepth(d, base, ""), Here()
+	case "errors.Wrapf#empty":
+		r.Err, Lines[0] = errors.Wrapf(base, ""), Here()
+	case "errors.WrapWithDepthf#empty":
+		r.Err, Lines[0] = errors.WrapWithDepthf(d, base, ""), Here()
+	case "errors.New#empty":
+		r.Err, Lines[0] = errors.New(""), Here()
+	case "errors.Newf#w":
+		r.Err, Lines[0] = errors.Newf("Zq2x %w", base), Here()
+	case "errors.NewWithDepthf#w":
+		r.Err, Lines[0] = errors.NewWithDepthf(d, "Zq2x %w %v", base, base), Here()
+	case "errors.WrapWithDepthf#err":
+		r.Err, Lines[0] = errors.WrapWithDepthf(d, base, "Zq2x %v", base), Here()
+	case "errors.Join#nil":
+		r.Err, Lines[0] = errors.Join(nil, base), Here()
+	case "errutil.Wrap#empty":
+		r.Err, Lines[0] = errutil.Wrap(base, ""), Here()
+	case "errutil.WrapWithDepth#empty":
+		r.Err, Lines[0] = errutil.WrapWithDepth(d, base, ""), Here()
+	case "errutil.WrapWithDepthf#empty":
+		r.Err, Lines[0] = errutil.WrapWithDepthf(d, base, ""), Here()
 	case "errors.Wrapf":
 		r.Err, Lines[0] = errors.Wrapf(base, "Zq2x %d", 1), Here()
 	case "errors.WrapWithDepthf":
